@@ -821,6 +821,12 @@ def to_val(w):
     add_axiom('inj_' + sn, z3.ForAll([b], z3.And(g(f(b)) == b, *extra),
                                      patterns=[f(b)]), keys=['val_of_' + sn])
     return f(boxed)
+  if isinstance(w, VPy) and w.what == 'closure':
+    # a function object created by a `def` executed in the function under contract: an opaque
+    # (truthy) value named after the definition
+    fnode = w.payload[0]
+    v = z3.Const('val!closure!' + san(fnode.name), Val)
+    return v
   raise OutOfSubset(f'cannot inject {type(w).__name__} into Val')
 
 
